@@ -377,6 +377,8 @@ pub fn evaluate_ast(
                 || ident == "inputs"
                 || ident == "and"
                 || ident == "or"
+                || ident == "inf"
+                || ident == "infinity"
             {
                 return Err(RuntimeError::with_span(
                     format!("{} is a keyword, and cannot be reassigned", ident),
